@@ -13,6 +13,7 @@ import (
 	"github.com/tetratelabs/wazero"
 	"github.com/tetratelabs/wazero/api"
 	"github.com/tetratelabs/wazero/experimental"
+	"github.com/tetratelabs/wazero/experimental/table"
 
 	"verifharness/sim"
 	"verifharness/tape"
@@ -95,6 +96,7 @@ type inst struct {
 	globs [nGlobals]*globObj
 	mod   api.Module
 	imps  []int // imported id functions: indices of defining instances
+	cap   int32 // value of the imported mutable i32 global when this instance was created (capturesMut)
 }
 
 // module specification
@@ -113,6 +115,8 @@ type spec struct {
 	dataSeg     bool
 	oobSeg      bool
 	elemSeg     bool
+	elemImp     bool // the element segment's item is the first IMPORTED function instead of the module's own id
+	capMut      bool // a private global is initialised with global.get of the imported mutable i32 global
 	elemNull    bool // the element segment has a second item, ref.null, which clears the slot after the first
 	ownInit     bool // own mutable i32 global initialised from the imported immutable global
 	start       int  // 0 none, 1 writes cell 31, 2 writes then traps
@@ -130,6 +134,16 @@ func (s *spec) describe() string {
 // constant expressions may read it.
 func (s *spec) gcUsable() bool {
 	return s.gFrom[gConst] >= 0 && s.twist != fmt.Sprintf("global-type-%d", gConst) && s.twist != fmt.Sprintf("global-mut-%d", gConst)
+}
+
+// putsImport: the element segment writes the first imported function (properly typed) into the table.
+func (s *spec) putsImport() bool {
+	return s.elemImp && len(s.impFn) > 0 && !strings.HasPrefix(s.twist, "func-")
+}
+
+// capturesMut: the mutable i32 global is imported (with its proper type) and a private global copies it.
+func (s *spec) capturesMut() bool {
+	return s.capMut && s.gFrom[gI32] >= 0 && !strings.HasPrefix(s.twist, "global-")
 }
 
 func constExpr(kind int, v int32) []byte {
@@ -285,6 +299,13 @@ func build(s *spec, specs []*spec) []byte {
 	// shared table depends on its own instance's state being in place
 	m.Globals = append(m.Globals, wasmb.Global{Type: wasmb.I32, Mut: true, Init: wasmb.ConstI32(int32(s.idx))})
 	ownG := nImpG + uint32(len(m.Globals)-1)
+	// a private immutable global initialised from the imported MUTABLE i32 global (wazero accepts that
+	// in a constant expression): a value captured at instantiation time
+	capG := -1
+	if s.capturesMut() {
+		m.Globals = append(m.Globals, wasmb.Global{Type: wasmb.I32, Mut: false, Init: wasmb.ConstGlobalGet(gidx[gI32])})
+		capG = int(nImpG) + len(m.Globals) - 1
+	}
 	for k := 0; k < nGlobals; k++ {
 		m.Exports = append(m.Exports, wasmb.Export{Name: fmt.Sprintf("g%d", k), Kind: wasmb.KindGlobal, Idx: gidx[k]})
 	}
@@ -331,6 +352,9 @@ func build(s *spec, specs []*spec) []byte {
 		}
 		m.AddFunc(nil, i32, []wasmb.ValType{wasmb.I32}, c().GlobalGet(gidx[gI32]).LocalSet(0).Call(bump).GlobalGet(gidx[gI32]).LocalGet(0).I32Sub().B, "g_across")
 	}
+	if capG >= 0 {
+		m.AddFunc(nil, i32, nil, c().GlobalGet(uint32(capG)).B, "rd_cap")
+	}
 	if aliasG >= 0 {
 		// read through one import index, write through the other, read again: old + new
 		m.AddFunc(i32, i32, nil, c().GlobalGet(uint32(aliasG)).LocalGet(0).GlobalSet(gidx[gI32]).GlobalGet(uint32(aliasG)).I32Add().B, "g_alias")
@@ -366,10 +390,14 @@ func build(s *spec, specs []*spec) []byte {
 		return wasmb.ConstI32(s.constVal)
 	}
 	if s.elemSeg {
+		first := idFn
+		if s.putsImport() {
+			first = 0 // function index 0 = the first imported function
+		}
 		if s.elemNull {
-			m.Elems = append(m.Elems, wasmb.Elem{Mode: 0, Offset: off(), Funcs: []uint32{idFn, 0}, NullAt: map[int]bool{1: true}})
+			m.Elems = append(m.Elems, wasmb.Elem{Mode: 0, Offset: off(), Funcs: []uint32{first, 0}, NullAt: map[int]bool{1: true}})
 		} else {
-			m.Elems = append(m.Elems, wasmb.Elem{Mode: 0, Offset: off(), Funcs: []uint32{idFn}})
+			m.Elems = append(m.Elems, wasmb.Elem{Mode: 0, Offset: off(), Funcs: []uint32{first}})
 		}
 	}
 	// (no declarative segment: id is exported, which already makes ref.func id valid; a module without
@@ -555,6 +583,8 @@ func (r *runner) instantiate(twisted bool) {
 	s.dataSeg = t.Chance(1, 2)
 	s.elemSeg = t.Chance(1, 2)
 	s.elemNull = s.elemSeg && t.Chance(1, 3)
+	s.capMut = t.Chance(1, 2)
+	s.elemImp = t.Chance(1, 3)
 	s.ownInit = t.Chance(1, 2)
 	s.start = t.Weighted(6, 2, 1)
 	s.oobSeg = t.Chance(1, 8)
@@ -628,6 +658,10 @@ func (r *runner) instantiate(twisted bool) {
 	}
 	// instantiation effects in specification order: element segment, data segments, start
 	nullProbe, nullPrev := -1, fnRef{}
+	capAtInst := int32(0)
+	if s.capturesMut() {
+		capAtInst = int32(uint32(in.globs[gI32].bits))
+	}
 	effects := func() bool {
 		offV := s.constVal
 		if s.gcUsable() {
@@ -641,6 +675,9 @@ func (r *runner) instantiate(twisted bool) {
 			// (an out-of-bounds active element segment is documented by wazero as
 			// ignored rather than failing the instantiation: store.go applyElements)
 			in.tab.slots[offV] = fnRef{inst: idx}
+			if s.putsImport() {
+				in.tab.slots[offV] = fnRef{inst: s.impDef[0]}
+			}
 			if s.elemNull {
 				if prev := in.tab.slots[offV+1]; prev.inst >= 0 {
 					nullProbe, nullPrev = int(offV)+1, prev
@@ -711,6 +748,28 @@ func (r *runner) instantiate(twisted bool) {
 	in.mod = mod
 	r.insts[idx] = in
 	r.growOrInst = true
+	if s.capturesMut() {
+		in.cap = capAtInst
+		res, err := mod.ExportedFunction("rd_cap").Call(r.ctx)
+		if err != nil || int32(uint32(res[0])) != in.cap {
+			r.res.Fail("captured-value", "%s: the private global initialised with global.get of the imported mutable global holds %v %v, the global's value at instantiation was %d", what, res, errLine(err), in.cap)
+		}
+	}
+}
+
+// hostLookupCall looks the slot up with experimental/table.LookupFunction (which panics like call_indirect traps) and calls it.
+func hostLookupCall(ctx context.Context, mod api.Module, slot uint32, x uint64) (res uint64, err error) {
+	defer func() {
+		if p := recover(); p != nil {
+			err = fmt.Errorf("lookup panicked: %v", p)
+		}
+	}()
+	f := table.LookupFunction(mod, 0, slot, []api.ValueType{api.ValueTypeI32}, []api.ValueType{api.ValueTypeI32})
+	rs, err := f.Call(ctx, x)
+	if err != nil {
+		return 0, err
+	}
+	return rs[0], nil
 }
 
 func errLine(err error) string {
@@ -1100,6 +1159,20 @@ func (r *runner) checkAll(after string) {
 				}
 			} else if err != nil || int32(uint32(res[0])) != int32(70+ref.inst) {
 				r.res.Fail("view-diverged", "after %s: m%d calls slot %d = %v %v, model expects %d (function of m%d)", after, in.idx, s, res, errLine(err), 70+ref.inst, ref.inst)
+				return
+			}
+			// the same slot through the host-side lookup (experimental/table), as call_indirect would
+			if ref.inst >= 0 && (r.insts[ref.inst] == nil || r.insts[ref.inst].mod == nil || r.insts[ref.inst].mod.IsClosed()) {
+				continue // a function left by a failed instantiation: api.Function.Call refuses closed modules
+			}
+			hres, herr := hostLookupCall(r.ctx, in.mod, uint32(s), 7)
+			if ref.inst < 0 {
+				if herr == nil {
+					r.res.Fail("view-diverged", "after %s: table.LookupFunction(m%d, slot %d) found a function in a null slot (%v)", after, in.idx, s, hres)
+					return
+				}
+			} else if herr != nil || int32(uint32(hres)) != int32(70+ref.inst) {
+				r.res.Fail("view-diverged", "after %s: table.LookupFunction(m%d, slot %d) called with 7 = %d %v, model expects %d (function of m%d)", after, in.idx, s, int32(uint32(hres)), errLine(herr), 70+ref.inst, ref.inst)
 				return
 			}
 			r.noteRead(in.tab, in.idx)
